@@ -21,7 +21,9 @@ fn repr_cmp_same_base<const B: Word, const ABS: bool>(
             && pp.0 < 0x1000_0000_0000_0000 && pp.1 < 0x1000_0000_0000_0000,
         // machine ranges (overflow of isize in `exp + digits` is outside this contract)
         -0x1000_0000_0000_0000 < lhs.exponent < 0x1000_0000_0000_0000, -0x1000_0000_0000_0000 < rhs.exponent < 0x1000_0000_0000_0000,
-        ndigits(B as int, lhs.significand.v()) < 0x1000_0000_0000_0000, ndigits(B as int, rhs.significand.v()) < 0x1000_0000_0000_0000,
+        // resource limit: exponent overflow is a documented panic (C16), not modelled: case 6 shifts by an exponent
+        // difference of up to digits_ub <= 2 * digits + 2 digits (`shl_digits`: bit position `pos * log2(B)` in usize)
+        ndigits(B as int, lhs.significand.v()) < 0x100_0000_0000_0000, ndigits(B as int, rhs.significand.v()) < 0x100_0000_0000_0000,
     ensures
         // C05: "== / cmp follow the mathematical value regardless of precision or rounding mode"
         ret == float_cmp_spec(B as int, ABS, lhs.significand.v(), lhs.exponent as int, rhs.significand.v(), rhs.exponent as int),
